@@ -25,6 +25,14 @@ func (m *multiFlag) String() string     { return strings.Join(*m, ",") }
 func (m *multiFlag) Set(s string) error { *m = append(*m, s); return nil }
 
 func main() {
+	// type aliases are resolved by the type checker (no *types.Alias nodes): two names
+	// of one type must map to one SMT sort
+	if g := os.Getenv("GODEBUG"); !strings.Contains(g, "gotypesalias") {
+		if g != "" {
+			g += ","
+		}
+		os.Setenv("GODEBUG", g+"gotypesalias=0")
+	}
 	if len(os.Args) < 2 {
 		usage()
 	}
